@@ -99,7 +99,8 @@ ExactPermuteV(c, r) == ExactPermuteV2(c, r, Magnified(c.s))
 \* is ~1e-8), scores above tol are unchanged.  r.tol: 0 default (5e-16), 1 = 1e-5, 2 = 1e-3;  r.dt: dtype of the
 \* factor sets, "i64/f64h" = integer first set, second set halved (half-integer floats): same cosines.
 TolQ(t) == CASE t = 1 -> 10 [] t = 2 -> 1000 [] OTHER -> 0                 \* units of 1e-6
-CorrOptCombos == ({1, 2} \X {"f32", "f64"} \X {FALSE}) \cup ({0} \X {"f32"} \X {FALSE}) \cup ({0} \X {"i64/f64h"} \X BOOLEAN)
+\* "F/str": first set Fortran-ordered, second a non-contiguous view; "ro/ro": read-only arrays -- layout is not a value
+CorrOptCombos == ({1, 2} \X {"f32", "f64"} \X {FALSE}) \cup ({0} \X {"f32", "F/str", "ro/ro"} \X {FALSE}) \cup ({0} \X {"i64/f64h"} \X BOOLEAN)
 ValTol(dt) == IF dt = "f32" THEN 5 ELSE ExactTol
 CorrOptV(c, r, nums, stackedCover, bs) ==      \* bs: the float64 / default-tol stacked score of the same sets
     LET den == 2 * c.R * L
@@ -126,21 +127,21 @@ CorrOptV(c, r, nums, stackedCover, bs) ==      \* bs: the float64 / default-tol 
     ELSE IF AbsI(r.val - want) > ValTol(r.dt) THEN "CorrOptValue"
     ELSE "ok"
 \* mixed dtypes between the two arguments: the metric is a function of the VALUES
-CongMixes == {"i64/f64h", "f32/f64"} \X BOOLEAN
-PermuteMixes == {<<"A", "B">>, <<"B", "A">>}
+CongMixes == {"i64/f64h", "f32/f64", "F/str", "ro/ro"} \X BOOLEAN
+PermuteMixes == {<<"A", "B", "i64/f64h">>, <<"B", "A", "i64/f64h">>, <<"A", "B", "F/str">>, <<"A", "B", "ro/ro">>}
 OptsV(c, o, bs) ==
     IF c.s > 3 THEN (IF o.cong = <<>> /\ o.corr = <<>> /\ o.permute = <<>> THEN "ok" ELSE "OptForms")
     ELSE IF {<<o.corr[k].tol, o.corr[k].dt, o.corr[k].swap, o.corr[k].method>> : k \in DOMAIN o.corr}
               # {<<t[1], t[2], t[3], m>> : t \in CorrOptCombos, m \in Methods} THEN "OptForms"
     ELSE IF {<<o.cong[k].mix, o.cong[k].swap>> : k \in DOMAIN o.cong} # CongMixes THEN "OptForms"
-    ELSE IF {<<o.permute[k].ref, o.permute[k].target>> : k \in DOMAIN o.permute} # PermuteMixes THEN "OptForms"
+    ELSE IF {<<o.permute[k].ref, o.permute[k].target, o.permute[k].mix>> : k \in DOMAIN o.permute} # PermuteMixes THEN "OptForms"
     ELSE With([m \in 1..c.M |-> CorrNum(CosMat(c.A[m], c.B[m], TRUE), L)], LAMBDA nums :
          With(CoverBoth(StackRows(c.A, c.M), StackRows(c.B, c.M)), LAMBDA sc :
          With(FirstBad([k \in DOMAIN o.corr |-> CorrOptV(c, o.corr[k], nums, sc, bs)]), LAMBDA v1 :
            IF v1 # "ok" THEN v1
            ELSE With(FirstBad([k \in DOMAIN o.cong |-> ExactCongV(c, o.cong[k])]), LAMBDA v2 :
                 IF v2 # "ok" THEN v2
-                ELSE FirstBad([k \in DOMAIN o.permute |-> ExactPermuteV2(c, o.permute[k], TRUE)])))))
+                ELSE FirstBad([k \in DOMAIN o.permute |-> ExactPermuteV2(c, o.permute[k], o.permute[k].mix = "i64/f64h")])))))
 
 ExactV(e) ==
     LET c == e.cfg IN
@@ -195,6 +196,33 @@ ZerosV(e) ==
                    ELSE IF MustRejectPerMode(c) THEN "ok"
                    ELSE With(ExactCorrV(c, CorrRecord(e, FALSE)), LAMBDA v4 :
                         IF v4 # "ok" THEN v4 ELSE ExactCorrV(c, CorrRecord(e, TRUE))))))
+
+-----------------------------------------------------------------------------
+(* near ties / exact ties: only a matching that pairs collinear columns in every mode is optimal, however close the      *)
+(* competitors are (decided exactly, by 2 x 2 minors)                                                                    *)
+TieCongV(c, r) ==
+    IF r.raised THEN "CongRaised"
+    ELSE IF ~PermOK(r.perm, c.R) THEN "CongPerm"
+    ELSE IF ~IsFin(r.val) THEN "CongFinite"
+    ELSE IF ~TieOptimal(c, IF r.swap THEN InvPerm(Plus1(r.perm)) ELSE Plus1(r.perm)) THEN "CongTieNotOptimal"
+    ELSE IF AbsI(r.val - One) > ExactTol THEN "CongValue"
+    ELSE "ok"
+TiePermuteV(c, r) ==
+    IF r.raised THEN "PermuteRaised"
+    ELSE IF ~PermOK(r.perm, c.R) THEN "PermutePerm"
+    ELSE IF r.alias THEN "PermuteAliasesInput"
+    ELSE IF ~TieOptimal(c, IF r.ref = "B" THEN InvPerm(Plus1(r.perm)) ELSE Plus1(r.perm)) THEN "PermuteTieNotOptimal"
+    ELSE IF ~r.eqf THEN "PermuteFactors"
+    ELSE IF ~r.eqw THEN "PermuteWeights"
+    ELSE "ok"
+TiesV(e) ==
+    LET c == e.cfg IN
+    IF ~ValidTies(c) THEN "InDomain"
+    ELSE IF {<<e.cong[k].abs, e.cong[k].form, e.cong[k].swap>> : k \in DOMAIN e.cong}
+              # {f \in CongForms(c) : f[1] \/ c.sc = 0} THEN "CongForms"          \* signed variant only without sign flips
+    ELSE IF {<<e.permute[k].ref, e.permute[k].target>> : k \in DOMAIN e.permute} # {<<"A", "B">>, <<"B", "A">>} THEN "PermuteForms"
+    ELSE With(FirstBad([k \in DOMAIN e.cong |-> TieCongV(c, e.cong[k])]), LAMBDA v1 :
+         IF v1 # "ok" THEN v1 ELSE FirstBad([k \in DOMAIN e.permute |-> TiePermuteV(c, e.permute[k])]))
 
 -----------------------------------------------------------------------------
 (* generic family: logged cosine matrices (scale 1e6), brute-force optimality inside TLC *)
@@ -311,6 +339,7 @@ Verdict(e) ==
     CASE e.kind = "exact"    -> ExactV(e)
       [] e.kind = "generic"  -> GenericV(e)
       [] e.kind = "zeros"    -> ZerosV(e)
+      [] e.kind = "ties"     -> TiesV(e)
       [] e.kind = "metric"   -> MetricV(e)
       [] e.kind = "lev"      -> LevV(e)
       [] e.kind = "levexact" -> LevExactV(e)
